@@ -47,6 +47,11 @@ CLAIMED = {
     text='Decides for every code, by classes rather than samples: decode_id13 is the Annex 10 bit permutation with result bits within 0x7777; gray2alt decodes the 500-ft counter with the reflected-Gray prefix masks and, for each of the 8 classes of the C bits and each parity of the 500-ft counter, returns 5*F + d - 13 with the standard 100-ft digit (illegal C bits only give Err, results are non-negative); AC13Field::read and decode_ac12 return 25*N - 1000 with N the code minus Q (and M) exactly for N >= 41, feed decode_id13 with the code (M re-inserted for the 12-bit field), and contain no value-changing integer cast.',
     note='Static rule check. The step from "mask table + per-class formula" to "one-to-one onto consecutive 100 ft steps, neighbours differ in one bit" is the standard\'s own property of the reflected Gray code, not re-proved here. The metric (M = 1) branch is outside the property. Trusted: MIR, the abstract interpreter, the term normalisers, the tables transcribed from Annex 10 in checker/props/c13.py.',
     ref='DESIGN.md §7 C13'),
+ 'C14': dict(level='other', engine='absint',
+    technique='abstract interpretation of MIR with the mapping tables evaluated row by row (Lazy / vec! / constructor arguments), data rules on the embedded patterns.json, per-address-block abstract runs of the N/JA/HL decoders, mixed-radix normal forms of the index computations',
+    text='Totality: every panic obligation below tail(any u32) and aircraft_information(any &str, ..) is discharged, the data-dependent ones by rules evaluated on patterns.json of the current tree (0x-prefixed hex bounds, compilable category patterns, file deserialises into Patterns). Country: every address range in which a mapping can answer (stride/numeric rows from their evaluated constructor values; N, JA, HL by abstract runs over every address block) is assigned by patterns.json (first match, as the lookup does) to a block whose pattern admits the prefix. Aliasing: address ranges of the mappings are pairwise disjoint, prefixes do not shadow one another, same-prefix stride rows give disjoint letter triples; stride/numeric/HL are one-to-one inside a row by the shape of their computation (mixed-radix decomposition of a slope-1 offset, distinct alphabet letters, zero padding wide enough, disjoint HL ranges); every numeral position of the N and JA systems prints a single digit.',
+    note='Static rule check. Not decided: full injectivity inside the N-number and JA numeral systems (only the single-digit necessary condition). Trusted: MIR, abstract interpreter, library contracts (Lazy, vec!, chars/position/nth over constants, String), python re on the block patterns of patterns.json.',
+    ref='DESIGN.md §7 C14'),
  'C16': dict(level='proof', engine='absint',
     technique='abstract interpretation of MIR with url/regex/serde-data contracts evaluated on the literals and data files; effect closure; format-template comparison',
     text='Every panic obligation below <Source as FromStr>::from_str and <Position as FromStr>::from_str is discharged for an arbitrary &str; constant-argument calls (Url::parse literal, Regex::new literals, the airports table parsed behind Lazy) are re-validated on the current literal / data file; Source::serial reaches no clock/random/env effect (DefaultHasher has fixed keys), formats the table form from exactly (address, port), with the same template as the string form.',
